@@ -321,6 +321,15 @@ Definition dev_spec (k : kind) (d : deviation) (p : props) (code : Z) (removed o
        | None => Z.eqb code 1
        end.
 
+(** the same grouping used a second time: the copy of the target that no deviation names still has
+    exactly what the grouping declares, whatever happens to the named copy (the deviation is applied
+    after the uses are expanded, to one expansion).  [copy] is what was read off that other copy;
+    nothing is observable when the load fails. *)
+Definition copy_kept (p : props) (code : Z) (copy : option props) : bool :=
+  if Z.eqb code 0
+  then match copy with Some q => props_eqb (project p) q | None => false end
+  else true.
+
 Inductive case :=
 | CExpr (c : cst) (w0 w1 text : list byte) (feats : list (list byte)) (obs : list Z)
     (* a generated grammatical written expression; obs: one code per assignment *)
@@ -334,8 +343,13 @@ Inductive case :=
     (* arbitrary bytes; one code per assignment *)
 | CGuard (cfg : fconfig) (declared : list name) (ss : list stmt) (code : Z) (obs : list (list bool))
     (* a module loaded with Options.Features = cfg; per statement: present / refine applied *)
-| CDeviate (kind_code : Z) (p : props) (d : deviation) (code : Z) (removed others_ok : bool) (obs : props).
+| CDeviate (kind_code : Z) (p : props) (d : deviation) (code : Z) (removed others_ok : bool) (obs : props)
     (* a deviation applied to a node with properties p (0 leaf, 1 leaf-list, 2 list, 3 container) *)
+| CDeviateCopy (kind_code : Z) (p : props) (d : deviation) (code : Z) (removed others_ok : bool) (obs : props)
+    (copy : option props).
+    (* the node is declared in a grouping used in two containers and the deviation names one of the
+       two copies; [copy]: the record of the other one.  [others_ok] here also covers the other
+       children of both containers and the statements of the grouping itself *)
 
 Definition classify (c : case) : verdict :=
   match c with
@@ -375,4 +389,8 @@ Definition classify (c : case) : verdict :=
       let k := kind_of_code kc in
       classify_gen (dev_corr k d p code removed others_ok obs)
                    (dev_spec k d p code removed others_ok obs) None
+  | CDeviateCopy kc p d code removed others_ok obs copy =>
+      let k := kind_of_code kc in
+      classify_gen (dev_corr k d p code removed others_ok obs && copy_kept p code copy)
+                   (dev_spec k d p code removed others_ok obs && copy_kept p code copy) None
   end.
